@@ -187,10 +187,17 @@ class Generator:
             if frag_has_exit and st['depth'] != 1:
                 raise GenError(f'unsupported: stmts fragment of {u.fnpath} contains return/? but is not at function-body level')
         elif u.kind == 'loopbody':
-            k = int(u.sel[0])
-            if len(fn['loops']) <= k:
-                raise GenError(f'lost-anchor: loop #{k} in {u.fnpath}')
-            span = fn['loops'][k]['body']
+            if re.fullmatch(r'\d+', u.sel[0]):
+                k = int(u.sel[0])
+                if len(fn['loops']) <= k:
+                    raise GenError(f'lost-anchor: loop #{k} in {u.fnpath}')
+                span = fn['loops'][k]['body']
+            else:
+                pre = normtok(u.sel[0])
+                c = [l for l in fn['loops'] if normtok(src[l['span'][0]:l['body'][0]].decode()).startswith(pre)]
+                if len(c) != 1:
+                    raise GenError(f'lost-anchor: loop "{u.sel[0]}" in {u.fnpath}: {len(c)} candidates')
+                span = c[0]['body']
             wrap = False
         else:
             raise GenError(f'bad unit kind {u.kind}')
@@ -282,6 +289,14 @@ class Generator:
                 if n == 0:
                     raise GenError(f'lost-anchor: RPCALL site {rw[1]} not found in {u.fnpath}')
                 applied.append(f'RPCALL {rw[1]} -> {func} x{n}')
+            elif kind == 'RFOR':
+                # ghost iterator name for a `for` loop: `for x in EXPR` -> `for x in NAME: EXPR` (annotation only)
+                k, name = int(rw[1]), rw[2]
+                fl = [l for l in fn['loops'] if inside(l['span'], span)]
+                if k >= len(fl) or fl[k]['kind'] != 'for':
+                    raise GenError(f'lost-anchor: for-loop #{k} in {u.fnpath}')
+                add_edit(fl[k]['iter'][0], fl[k]['iter'][0], f'{name}: ', 'RFOR')
+                applied.append(f'RFOR loop#{k} ghost iterator {name}')
             elif kind == 'RC':
                 # closure contract: `|p| body` -> `|p| -> (cr: T) ensures E { body }` (body verbatim)
                 k, rty, ens = int(rw[1]), rw[2], rw[3]
